@@ -35,7 +35,7 @@ def tla_set(xs):
 
 
 def mc_cfg(path, *, mode="WebRtc", dc=True, traffic=False, devs=(), max_events=1, phases=ALL_PHASES,
-           ev1=ALL_EVENTS, ev2=("Close",), wfc=2, emit=False, liveness=True):
+           ev1=ALL_EVENTS, ev2=("Close",), wfc=2, emit=False, liveness=True, answerer=False):
     props = "PROPERTIES TerminalIsStable" + (" CloseEventually ReportsTerminal LocalEndsClosed NoHang Released"
                                              if liveness else "")
     with open(path, "w") as f:
@@ -48,6 +48,7 @@ CONSTANTS
   Props = {{"C17"}}
   MaxEvents = {max_events}
   WfcBudget = {wfc}
+  Answerer = {"TRUE" if answerer else "FALSE"}
   PhaseSet = {tla_set(phases)}
   Ev1Set = {tla_set(ev1)}
   Ev2Set = {tla_set(ev2)}
@@ -58,7 +59,7 @@ CHECK_DEADLOCK FALSE
 """)
 
 
-def trace_cfg(path, *, mode, dc, props, max_silent=8):
+def trace_cfg(path, *, mode, dc, props, max_silent=8, answerer=False):
     with open(path, "w") as f:
         f.write(f"""SPECIFICATION TraceSpec
 CONSTANTS
@@ -69,6 +70,7 @@ CONSTANTS
   Props = {tla_set(props)}
   MaxEvents = 9
   WfcBudget = 2
+  Answerer = {"TRUE" if answerer else "FALSE"}
   PhaseSet = {{"renegotiating"}}
   Ev1Set = {{}}
   Ev2Set = {{}}
@@ -152,7 +154,7 @@ _lock = threading.Lock()
 _ctr = [0]
 
 
-def validate(ck, flat, mode, dc, props, tag):
+def validate(ck, flat, mode, dc, props, tag, answerer=False):
     """Run Trace_Lifecycle on the flat records.
     Returns (accepted, index of the first record no explanation could consume, tlc result,
              {scenario id: smallest set of broken rules over all explanations})."""
@@ -162,7 +164,7 @@ def validate(ck, flat, mode, dc, props, tag):
     tpath = os.path.join(ck.dir, f"tv_{tag}_{n}.ndjson")
     vlib.write_ndjson(tpath, flat)
     cfg = os.path.join(vlib.SPEC, f"Trace_Lifecycle_{os.getpid()}_{n}.gen.cfg")
-    trace_cfg(cfg, mode=mode, dc=dc, props=props)
+    trace_cfg(cfg, mode=mode, dc=dc, props=props, answerer=answerer)
     sink = os.path.join(ck.dir, f"tv_{tag}_{n}.verdicts")
     res = vlib.tlc("Trace_Lifecycle", os.path.basename(cfg), workers=1, timeout=900, seed_arg=False,
                    tags=("VERDICT",), sinks={"VERDICT": sink},
@@ -195,10 +197,11 @@ def nice(r):
     return {k: v for k, v in r.items() if v not in ("", 0, False, [])}
 
 
-def signature(sc, v):
+def signature(sc, v, endpoint="victim"):
     """Structural signature of one broken rule: the rule, where it was observed, and the class of events."""
     rule, t, site, observed, x = v
-    sig = {"sub": "lifecycle", "rule": rule, "mode": sc.get("mode", "WebRtc"), "phase": sc.get("phase"), "t": t}
+    sig = {"sub": "lifecycle", "rule": rule, "mode": sc.get("mode", "WebRtc"), "phase": sc.get("phase"), "t": t,
+           "endpoint": endpoint}
     if t in ("pub", "sig"):
         sig["site"] = site
         sig["observed"] = observed
@@ -312,7 +315,7 @@ def run(tier):
     for r in runs:
         sc = r[0]["scenario"]
         groups.setdefault((sc.get("mode", "WebRtc"), bool(sc.get("dc", True))), []).append(r)
-    validated, unexplored, nontrivial, findings = 0, [], set(), []
+    validated, unexplored, nontrivial, findings, peer_validated = 0, [], set(), [], 0
     chunks = []
     for (mode, dc), rs in sorted(groups.items()):
         todo = []
@@ -327,19 +330,24 @@ def run(tier):
                                    "notes": end.get("notes")})
             todo.append(r)
         for i in range(0, len(todo), CHUNK):
-            chunks.append((mode, dc, todo[i:i + CHUNK]))
+            chunks.append((mode, dc, todo[i:i + CHUNK], False))
+        # the endpoint that did not initiate (the answerer) is validated as an endpoint of its own
+        others = [r for r in todo if "other" in r[-1]]
+        for i in range(0, len(others), CHUNK):
+            chunks.append((mode, dc, others[i:i + CHUNK], True))
 
     def validate_chunk(job):
-        mode, dc, todo = job
-        out = {"validated": [], "findings": [], "drift": [], "tlc": []}
+        mode, dc, todo, other = job
+        out = {"validated": [], "findings": [], "drift": [], "tlc": [], "other": other}
         while todo:
             flat, bounds = [], []
             for r in todo:
-                f = lc.flatten(r, r[0]["scenario"].get("victim", "A"))
+                vic = r[0]["scenario"].get("victim", "A")
+                f = lc.flatten(r, ("B" if vic == "A" else "A") if other else vic)
                 bounds.append((len(flat) + 1, len(flat) + len(f)))
                 flat += f
-            ok, idx, res, verdicts = validate(ck, flat, mode, dc, ["EXT"] + RULES, f"grp_{mode}_{dc}")
-            out["tlc"].append((res, f"trace:{mode}:{'dc' if dc else 'nodc'}:{len(todo)}"))
+            ok, idx, res, verdicts = validate(ck, flat, mode, dc, ["EXT"] + RULES, f"grp_{mode}_{dc}", answerer=other)
+            out["tlc"].append((res, f"trace{'-peer' if other else ''}:{mode}:{'dc' if dc else 'nodc'}:{len(todo)}"))
             k = len(todo) if ok else next(i for i, (a, b) in enumerate(bounds) if a <= idx <= b)
             for r in todo[:k]:
                 sc = r[0]["scenario"]
@@ -348,12 +356,12 @@ def run(tier):
                     broken = []     # the planned events did not all fire: the cell is unexplored, nothing is judged
                 out["validated"].append((r, broken))
                 for v in broken:
-                    out["findings"].append((mode, dc, r, v))
+                    out["findings"].append((mode, dc, r, v, other))
             if ok:
                 break
             bad = todo[k]
             out["drift"].append({"scenario": {x: bad[0]["scenario"].get(x) for x in ("mode", "phase", "ev1", "ev2", "at2")},
-                                 "unexplained": nice(flat[idx - 1])})
+                                 "endpoint": "peer" if other else "victim", "unexplained": nice(flat[idx - 1])})
             todo = todo[k + 1:]
         return out
 
@@ -367,23 +375,27 @@ def run(tier):
         for r, broken in out["validated"]:
             sc = r[0]["scenario"]
             validated += 1
+            if out["other"]:
+                peer_validated += 1
+                continue
             if r[-1].get("hit") and not [v for v in broken if v[0] != "EXT"]:
                 nontrivial.add((sc["mode"], sc["phase"], sc["ev1"], sc["ev2"], sc["at2"], sc.get("rt", "multi")))
 
     reported, confirmed = set(), {}
-    for mode, dc, r, v in findings:
+    for mode, dc, r, v, other in findings:
         sc = r[0]["scenario"]
         if v[0] == "EXT":
-            ck.drift.append({"scenario": {x: sc.get(x) for x in ("mode", "phase", "ev1", "ev2", "at2")}, "ext": list(v)})
+            ck.drift.append({"scenario": {x: sc.get(x) for x in ("mode", "phase", "ev1", "ev2", "at2")},
+                             "endpoint": "peer" if other else "victim", "ext": list(v)})
             continue
-        sig = signature(sc, v)
+        sig = signature(sc, v, "peer" if other else "victim")
         key = json.dumps(sig, sort_keys=True)
         record = {"scenario": sc, "broken": list(v), "end": {x: y for x, y in r[-1].items() if x != "api"},
                   "api": r[-1].get("api"), "replay": sc}
         if (v[0] in LIVENESS_RULES and key not in reported and ck.known.match(PID, sig) is None
                 and confirmed.get(v[0], 0) < 2):
             # (once two signatures of a rule have been reproduced 3x, further ones of that rule are taken as is)
-            if confirm(ck, sc, v[0], mode, dc):
+            if confirm(ck, sc, v[0], mode, dc, other):
                 confirmed[v[0]] = confirmed.get(v[0], 0) + 1
             else:
                 ck.notes.append(f"unconfirmed (not reproduced 3x): {v} in {sc}")
@@ -405,6 +417,7 @@ def run(tier):
     hit = sum(1 for r in runs if r[-1].get("hit"))
     ck.cov["traces_validated_against_impl"] = validated
     ck.cov["evaluations"] = len(runs)
+    ck.cov["peer_endpoint_traces_validated"] = peer_validated
     ck.cov["distinct_nontrivial"] = len(nontrivial)
     ck.cov["scenarios"] = {"emitted": emitted, "executed": len(runs), "hit": hit, "unexplored": len(unexplored)}
     ck.cov["unexplored"] = [{k: u["scenario"].get(k) for k in ("mode", "phase", "ev1", "ev2", "at2")} | {"why": u["why"]}
@@ -426,14 +439,15 @@ def run(tier):
     ck.finish()
 
 
-def confirm(ck, sc, rule, mode, dc):
+def confirm(ck, sc, rule, mode, dc, other=False):
     """Liveness verdicts: the same scenario must break the same rule three times (the last two runs alone)."""
     for n in range(2):
         runs = run_harness(ck, [dict(sc, id=sc["id"] + 500000 + n, attempts=5)], f"confirm_{sc['id']}_{n}", 1)
         if not runs or not runs[0][-1].get("hit"):
             return False
-        flat = lc.flatten(runs[0], sc.get("victim", "A"))
-        ok, _idx, _res, verdicts = validate(ck, flat, mode, dc, ["EXT"] + RULES, f"confirm{sc['id']}")
+        vic = sc.get("victim", "A")
+        flat = lc.flatten(runs[0], ("B" if vic == "A" else "A") if other else vic)
+        ok, _idx, _res, verdicts = validate(ck, flat, mode, dc, ["EXT"] + RULES, f"confirm{sc['id']}", answerer=other)
         if not ok or not any(v[0] == rule for vs in verdicts.values() for v in vs):
             return False
     return True
